@@ -625,7 +625,11 @@ def courts_and_strings(payload):
 
 def run_steps(payload):
     """Step-level records for Trace_ExtractSteps.tla (needs the guarded hook: EYECITE_VERIF=1)."""
-    from eyecite import _verif, get_citations
+    try:
+        from eyecite import _verif
+    except ImportError:          # a tree without the hook commits: the layer is skipped, and says so
+        return [{"hooks": False, "cites": [], "raised": ""} for _ in payload["items"]]
+    from eyecite import get_citations
     from eyecite.helpers import process_parenthetical
     from eyecite.models import (CitationToken, FullCaseCitation, FullJournalCitation, FullLawCitation, IdCitation,
                                 ParagraphToken, ReferenceCitation, ShortCaseCitation, StopWordToken, SupraCitation, Token)
